@@ -316,6 +316,13 @@ func c06Corpus() []lHist {
 // c06Augment mixes vault-centred operations into a generated history (own PRNG stream).
 func c06Augment(h lHist, r *Rng) lHist {
 	var out []lOp
+	// two-pool market: the big borrowers open on either leveraged-LP pool (one vault lends to both)
+	q := func() int {
+		if !h.Two {
+			return 0
+		}
+		return r.Intn(2)
+	}
 	for _, op := range h.Ops {
 		out = append(out, op)
 		if !r.Chance(22) {
@@ -329,13 +336,13 @@ func c06Augment(h lHist, r *Rng) lHist {
 		case 2:
 			out = append(out, lOp{Op: "blocks", N: 1, DT: r.Pick(86400, 604800, 2592000)})
 		case 3:
-			out = append(out, lOp{Op: "price", P: "0.5"}, lOp{Op: "lev_close_positions", U: r.Intn(5), Idx: r.Intn(4), Dir: 0})
+			out = append(out, lOp{Op: "price", P: "0.5", Q: q()}, lOp{Op: "lev_close_positions", U: r.Intn(5), Idx: r.Intn(4), Dir: 0})
 		case 4:
-			out = append(out, lOp{Op: "lev_open", U: r.Intn(5), Amt: r.Decade(8, 11).String(), Lev: []string{"9.5", "10"}[r.Intn(2)], P: "0"})
+			out = append(out, lOp{Op: "lev_open", U: r.Intn(5), Amt: r.Decade(8, 11).String(), Lev: []string{"9.5", "10"}[r.Intn(2)], P: "0", Q: q()})
 		case 5:
 			out = append(out, lOp{Op: "lev_close", U: r.Intn(5), Idx: r.Intn(4), Rel: 1 + r.Intn(5)})
 		case 6:
-			out = append(out, lOp{Op: "swap_in", U: r.Intn(5), V: 0, Pool: r.Intn(2), Dir: 1, Amt: r.Decade(0, 10).String(), Rel: 2})
+			out = append(out, lOp{Op: "swap_in", U: r.Intn(5), V: 0, Pool: r.Intn(2), Dir: 1, Amt: r.Decade(0, 10).String(), Rel: 2, Q: q()})
 		default:
 			out = append(out, lOp{Op: "bond", U: r.Intn(5), Amt: r.Decade(0, 12).String()})
 		}
